@@ -604,3 +604,29 @@ func (h H) effectiveRoots(fn *ssa.Function) []string {
 	sort.Strings(names)
 	return names
 }
+
+// valueAt is one of the values an expression can take, with the place where
+// that value was chosen (the end of the block it flows in from).
+type valueAt struct {
+	V  ssa.Value
+	At ssa.Instruction
+}
+
+// leavesAt unfolds phis: the values v can have when read at `at`, each with
+// the instruction that ends the path on which it was chosen; operands whose
+// path cannot reach the reader are dropped (core.LivePhiEdges).
+func (h H) leavesAt(v ssa.Value, at ssa.Instruction, depth int) []valueAt {
+	if ph, isPhi := v.(*ssa.Phi); isPhi && depth < 5 {
+		var out []valueAt
+		live := h.P.LivePhiEdges(ph, at)
+		for i, e := range ph.Edges {
+			if live != nil && !live[i] {
+				continue
+			}
+			pred := ph.Block().Preds[i]
+			out = append(out, h.leavesAt(e, pred.Instrs[len(pred.Instrs)-1], depth+1)...)
+		}
+		return out
+	}
+	return []valueAt{{v, at}}
+}
